@@ -1,7 +1,7 @@
 CONSTANTS
   NameSeq <- N3
   Slots = {1, 2}
-  MaxNodes = 8
+  MaxNodes = 12
   MaxDepth = 5
   Actions <- DeclActions
   InitDeclared = 1
